@@ -401,6 +401,7 @@ fn damage_sweep(rep: &'static Report, alice: &Party, bob: &Party) {
 
 pub fn run(rep: &'static Report) {
     rep.set_rule("E-PROC product: every listed failure cause of every output-writing command (encrypt, decrypt, password encrypt, password decrypt, key generate) x prior state of the output path {absent, present with 200000 sentinel bytes, symbolic link to an existing file}; the real CLI runs in a scratch directory and the path is compared before/after. Later-chunk failures must leave exactly the authenticated prefix. distinct non-trivial = distinct (command, cause, prior state) cases");
+    rep.rule_add("every case also with the output path being a symbolic link; damage sweep (every byte / truncation of small files; position grid in later records) with REF deciding the authenticated prefix.");
     rep.assume("inode and mtime are not compared (the statement speaks of bytes); for trailing data after the final chunk both 'all of P' and 'P without its last chunk' are accepted");
     let (fx, alice, bob) = fixtures(rep.seed);
     let cs = cases(&fx);
